@@ -464,10 +464,11 @@ fn member_decl_node(m: &ClassMemberDeclaration, body: Option<Node>) -> Node {
     format!("Member(public={},method={})", m.is_public, m.is_method),
     m.loc,
   );
-  n.children.push(Node::id("MemberDeclName", &m.name));
+  // source order: `function <T> name(params): ret = body`
   if let Some(t) = &m.type_parameters {
     n.children.push(type_params_node(t));
   }
+  n.children.push(Node::id("MemberDeclName", &m.name));
   let mut params = Node::new("Parameters", m.parameters.location);
   for p in m.parameters.parameters.iter() {
     let loc = p.name.loc.union(&p.annotation.location());
